@@ -196,11 +196,11 @@ Proof.
   destruct (Z_le_gt_dec 0 e) as [Pe|Ne].
   - rewrite (Z.max_r 0 e), (Z.max_l 0 (- e)) by lia. rewrite Z.pow_0_r, Z.mul_1_r.
     destruct (0 <=? dexp d) eqn:E; [|lia]. subst z.
-    rewrite <- Z.mul_assoc. rewrite <- Z.pow_add_r by lia. f_equal. f_equal. lia.
+    rewrite <- Z.mul_assoc. rewrite <- Z.pow_add_r by lia. f_equal; try f_equal; lia.
   - rewrite (Z.max_l 0 e), (Z.max_r 0 (- e)) by lia. rewrite Z.pow_0_r, Z.mul_1_r.
     destruct (0 <=? dexp d) eqn:E.
-    + subst z. rewrite <- Z.mul_assoc. rewrite <- Z.pow_add_r by lia. f_equal. f_equal. lia.
-    + rewrite H. rewrite <- Z.mul_assoc. rewrite <- Z.pow_add_r by lia. f_equal. f_equal. lia.
+    + subst z. rewrite <- Z.mul_assoc. rewrite <- Z.pow_add_r by lia. f_equal; try f_equal; lia.
+    + rewrite H. rewrite <- Z.mul_assoc. rewrite <- Z.pow_add_r by lia. f_equal; try f_equal; lia.
 Qed.
 
 Lemma cmp_scale : forall x y za zb P Q, 0 < P -> 0 < Q ->
